@@ -143,8 +143,14 @@ func main() {
 			err = corr.StaleDelete(d, res, *seed)
 		}
 	case "C04":
-		res.Rule = "the C03 fault grid with per-token execution counters in the handlers and per-token request frame counts at the proxy, call kinds {plain, notification, retry-tagged}; distinct = (fault, position, direction, frame, timing)"
+		res.Rule = "the C03 fault grid with per-token execution counters in the handlers and per-token request frame counts at the proxy, call kinds {plain, notification, retry-tagged}; plus an untagged subscription whose channel-id response is lost with the connection (no re-send after the redial) and HTTP calls whose connection dies after the server executed them (close, reset, partial response: the caller must get an error and the server must see the request once); distinct = (fault, position, direction, frame, timing)"
 		err = corr.FaultGrid(d, res, *seed+1000, thorough, "C04")
+		if err == nil {
+			err = corr.SubLostResponse(d, res, *seed)
+		}
+		if err == nil {
+			err = corr.OneShotAtMostOnce(res)
+		}
 	case "C18":
 		res.Rule = "a mixed workload (queued, written and awaiting calls, a 400 kB response being read, a stream, a connection loss with calls in the reconnect window and after) with the closer fired at sampled occurrences (first, last, random) of each of 25 yield-point sites (hook gates), plus the sweep-versus-executor schedule with the closer as observer and closers of one-shot clients; distinct = (site, occurrence)"
 		err = corr.CloseEverywhere(d, res, *seed, thorough)
